@@ -292,3 +292,34 @@ package activitypub
 //@   invariant (and (<= -1 rangeindex) (< rangeindex (len (deref i))) (<= -1 remIdx) (<= remIdx rangeindex))
 //@   invariant (=> (>= remIdx 0) (itemsEq (at (deref i) remIdx) r))
 //@   invariant (forall (k) (=> (and (< remIdx k) (<= k rangeindex)) (not (itemsEq (at (deref i) k) r))))
+
+// IRI lists: membership is by IRI equivalence (iriEq is the meaning of IRI.Equals, property C14) of the
+// item's link; nil-like items (isNilItem = the result of IsNil) are never members and are not appended.
+
+//@ func (IRIs).Contains
+//@ ensures (= result (and (not (isNilItem r)) (exists (k) (and (<= 0 k) (< k (len i)) (iriEq (link r) (at i k) false)))))
+//@ loop 0
+//@   invariant (and (<= -1 rangeindex) (< rangeindex (len i)))
+//@   invariant (forall (k) (=> (and (<= 0 k) (<= k rangeindex)) (not (iriEq (link r) (at i k) false))))
+
+//@ func (*IRIs).Count
+//@ ensures (= result (ite (isnil i) 0 (len (deref i))))
+
+//@ func (*IRIs).Append
+//@ requires (not (isnil i))
+//@ requires (forall (j) (=> (and (<= 0 j) (< j (len it))) (iriEq (link (at it j)) (link (at it j)) false)))
+//@ ensures (= result nil)
+//@ ensures (and (>= (len (deref i)) (len (old (deref i)))) (<= (len (deref i)) (+ (len (old (deref i))) (len it))))
+//@ ensures (forall (k) (=> (and (<= 0 k) (< k (len (old (deref i))))) (= (at (deref i) k) (old (at (deref i) k)))))
+//@ ensures (forall (j) (=> (and (<= 0 j) (< j (len it)) (not (isNilItem (at it j))))
+//@            (exists (k) (and (<= 0 k) (< k (len (deref i))) (iriEq (link (at it j)) (at (deref i) k) false)))))
+//@ ensures (forall (k) (=> (and (<= (len (old (deref i))) k) (< k (len (deref i))))
+//@            (exists (j) (and (<= 0 j) (< j (len it)) (= (at (deref i) k) (link (at it j)))))))
+//@ loop 0
+//@   invariant (and (<= -1 rangeindex) (< rangeindex (len it)))
+//@   invariant (and (>= (len (deref i)) (len (old (deref i)))) (<= (len (deref i)) (+ (len (old (deref i))) (+ rangeindex 1))))
+//@   invariant (forall (k) (=> (and (<= 0 k) (< k (len (old (deref i))))) (= (at (deref i) k) (old (at (deref i) k)))))
+//@   invariant (forall (j) (=> (and (<= 0 j) (<= j rangeindex) (not (isNilItem (at it j))))
+//@               (exists (k) (and (<= 0 k) (< k (len (deref i))) (iriEq (link (at it j)) (at (deref i) k) false)))))
+//@   invariant (forall (k) (=> (and (<= (len (old (deref i))) k) (< k (len (deref i))))
+//@               (exists (j) (and (<= 0 j) (<= j rangeindex) (= (at (deref i) k) (link (at it j)))))))
